@@ -30,13 +30,18 @@ package limiter
 //@ ghost memCurr map[ref]map[string]int
 //@ ghost memPrev map[ref]map[string]int
 //@ ghost memExp map[ref]map[string]int
+// setN: history variable of ONE handler activation (like nextCalls of fiber_ctx.spec; not store state, not protected by
+// the lock): the number of write-backs (manager.set) the activation has made. It is advanced by the one leaf that every
+// manager.set goes through exactly once: memory.Set (memory back end) / item.MarshalMsg (external back end).
+//@ ghost setN int
 //@ func @memory.(*Storage).Get(s, key) assumed
 //@   modifies memHas
 //@   ensures only-expiry-of-the-key-read: forallI(r, forallS(k, memHas[r][k] == (old(memHas[r][k]) && ((r == s && k == key) ==> memHas[s][key]))))
 //@   ensures live-value: memHas[s][key] ==> result == memVal[s][key]
 //@   ensures expired-or-absent: !memHas[s][key] ==> result == nil
 //@ func @memory.(*Storage).Set(s, key, val, ttl) assumed
-//@   modifies memHas, memVal, memKey, memCurr, memPrev, memExp
+//@   modifies memHas, memVal, memKey, memCurr, memPrev, memExp, setN
+//@   ensures setN == old(setN) + 1
 //@   ensures memHas == old(memHas)[s := old(memHas)[s][key := true]]
 //@   ensures memVal == old(memVal)[s := old(memVal)[s][key := val]]
 //@   ensures memKey == old(memKey)[s := old(memKey)[s][as(val, *item) := key]]
@@ -52,7 +57,9 @@ package limiter
 //@ fn decCurr(s string) int
 //@ fn decPrev(s string) int
 //@ fn decExp(s string) int
-//@ func (item).MarshalMsg(z, b) assumed pure allocates
+//@ func (item).MarshalMsg(z, b) assumed allocates
+//@   modifies setN
+//@   ensures setN == old(setN) + 1
 //@   ensures result1 == nil ==> arr(result0) == arr(b) || arr(result0) == 0 || !old(allocated(arr(result0)))
 //@   ensures never-fails: result1 == nil
 //@   ensures round-trip: len(b) == 0 ==> isEnc(str(result0)) && decCurr(str(result0)) == z.currHits && decPrev(str(result0)) == z.prevHits && decExp(str(result0)) == z.exp
@@ -143,7 +150,8 @@ package limiter
 // gets a buffer that nobody else holds (it may keep the slice).
 //@ func (*manager).set
 //@   requires store-ok-but-for-this-item: storeOKExcept(m, key) && mine(m, key, it)
-//@   modifies memHas, memVal, memKey, memCurr, memPrev, memExp, stHas, stVal, it.currHits, it.prevHits, it.exp
+//@   modifies memHas, memVal, memKey, memCurr, memPrev, memExp, stHas, stVal, it.currHits, it.prevHits, it.exp, setN
+//@   ensures one-write-back-counted: setN == old(setN) + 1
 //@   atcall @fiber.Storage.Set: buffer-not-shared: arr(val) == 0 || !old(allocated(arr(val)))
 //@   atcall @fiber.Storage.Set: own-key-and-ttl: key == arg1 && exp == arg3
 //@   atcall @fiber.Storage.Set: own-store: recv == m.storage
